@@ -48,8 +48,71 @@ def generate(repo):
     fl = funcs.get("_format_local_param")
     if fl is None or "return _format_param_math(param) if param.count('_') <= 1 else _format_param_text(param)" not in ast.unparse(fl):
         raise Untranslatable("_format_local_param changed")
+    # ---- the traversal and the assembly of the sections (what gets an entry), translated from fixed statement shapes
+    def body_of(name):
+        f = funcs.get(name)
+        if f is None:
+            raise Untranslatable(f"{name} missing")
+        return [ast.unparse(st) for st in f.body if not (isinstance(st, ast.Expr) and isinstance(st.value, ast.Constant))]
+
+    walk = body_of("_walk")
+    loop, own = "for child in routine.children:\n    yield from _walk(child)", "yield routine"
+    if walk == [loop, own]:
+        walk_def = "(flat_map gen_latex_walk ch ++ [r])%list"
+        others = "removelast (gen_latex_walk r)"         # `r is not routine`: the root is the last one yielded
+        root_pos = "last"
+    elif walk == [own, loop]:
+        walk_def = "(r :: flat_map gen_latex_walk ch)"
+        others = "tl (gen_latex_walk r)"
+        root_pos = "first"
+    else:
+        raise Untranslatable(f"_walk: {walk}")
+    if body_of("_format_resources") != [
+            "lines = _get_resources_lines(routine.resources)",
+            "if show_non_root_resources:\n    subroutines_to_process = [r for r in _walk(routine) if r is not routine]\n"
+            "    for subroutine in subroutines_to_process:\n        lines += _get_resources_lines(subroutine.resources, subroutine.name)",
+            "return _format_section_multi_line('Resources', lines) if lines else None"]:
+        raise Untranslatable("_format_resources changed")
+    if body_of("_get_resources_lines") != [
+            "lines: list[str] = []",
+            "for resource in resources:\n    if path is None:\n        resource_path = resource.name\n    else:\n"
+            "        resource_path = f'{path}.{resource.name}'\n"
+            "    lines.append(f'&{_format_param(resource_path)} = {_latex_expression(str(resource.value))}')",
+            "return lines"]:
+        raise Untranslatable("_get_resources_lines changed")
+    if body_of("_format_input_params") != ["input_params = [_format_param(input_param) for input_param in input_params]",
+                                           "return _format_section_one_line('Input parameters', input_params)"]:
+        raise Untranslatable("_format_input_params changed")
+    ps = body_of("_format_port_sizes")
+    if len(ps) != 3 or ps[0] != "lines = []" or not ps[1].startswith("for port in ports:\n") or ps[1].count("lines.append(") != 1 \
+            or "\n    lines.append(line)" not in ps[1] or ps[2] != "return _format_section_multi_line(f'{label} ports', lines)":
+        raise Untranslatable("_format_port_sizes changed")
+    rt_src = ast.unparse(rt)
+    if "*[format_line(data) for getter, format_line in SECTIONS if (data := getter(routine))]" not in rt_src.replace("(getter, format_line)", "getter, format_line") \
+            or "if (resource_section := _format_resources(routine, show_non_root_resources)):\n        lines.append(resource_section)" not in rt_src:
+        raise Untranslatable("routine_to_latex: assembly of the sections changed")
+    dir_con = {"input": "DIn", "output": "DOut", "through": "DThrough"}
+    model = [
+        "(* _walk: the subroutines in the order they are yielded *)",
+        "Fixpoint gen_latex_walk (r : routine) : list routine :=",
+        f"  match r with Routine _ _ _ _ _ _ _ _ _ _ ch => {walk_def} end.",
+        f"Definition gen_latex_walk_root_position : string := {coq_string(root_pos)}.",
+        "",
+        "(* _format_resources / _get_resources_lines: one line per resource, the root's first (no path), then -- if asked --",
+        "   those of every other routine of the walk under that routine's name *)",
+        "Definition gen_latex_resource_lines (r : routine) (show_non_root : bool) : list (option string * string) :=",
+        "  (map (fun x => (None, r_name x)) (rresources r) ++",
+        "   (if show_non_root then flat_map (fun s => map (fun x => (Some (rname s), r_name x)) (rresources s))",
+        f"                                   ({others}) else []))%list.",
+        "",
+        "(* SECTIONS: one entry per input parameter; one line per port of each direction that has a getter *)",
+        "Definition gen_latex_param_entries (r : routine) : list string := " + ("rparams r" if "input_params" in attrs else "[]") + ".",
+        "Definition gen_latex_port_lines (r : routine) : list (dir * string) :=",
+        "  (" + " ++ ".join(f"map (fun p => ({dir_con[d]}, p_name p)) (filter (fun p => dir_eqb (p_dir p) {dir_con[d]}) (rports r))" for d in dirs)
+        + ")%list.", ""]
     out = ["(* GENERATED by translator/gen_latex.py from src/bartiq/integrations/latex.py — do not edit *)",
-           "From Coq Require Import List String Bool.", "Import ListNotations.", "Open Scope string_scope.", "",
+           "From Coq Require Import List String Bool.", "From Bq Require Import Expr Routine.", "Import ListNotations.", "Open Scope string_scope.", "",
+           *model,
            f"Definition gen_latex_port_directions : list string := [{'; '.join(coq_string(d) for d in dirs)}].",
            f"Definition gen_latex_attr_sections : list string := [{'; '.join(coq_string(a) for a in attrs)}].",
            f"Definition gen_latex_empty_part_guard : bool := {'true' if guard else 'false'}.", ""]
